@@ -144,6 +144,48 @@ fn script(a: &std::collections::HashMap<String, String>) {
     println!("{}", json!({"kind":"shmscript","id":id,"steps":steps}));
 }
 
+/// op=parked: a send that carries a region is parked (multi-fragment data, nobody reading yet); meanwhile the program creates ANOTHER
+/// region of the same length; then the receiver reads.  Both regions - and the received copy - must read their own bytes afterwards.
+/// Runs in a forked child: a mapping destroyed behind a handle's back ends in a fault.
+fn parked(a: &std::collections::HashMap<String, String>) {
+    let id: u64 = a["id"].parse().unwrap();
+    let len: usize = a["len"].parse().unwrap();
+    let pid = unsafe { libc::fork() };
+    if pid == 0 {
+        let (tx, rx) = platform::channel().unwrap();
+        let r1 = OsIpcSharedMemory::from_byte(0x11, len);
+        let keep1 = r1.clone();
+        let t = std::thread::spawn(move || {
+            let data = vec![0x33u8; 4 << 20];
+            let _ = tx.send(&data, vec![], vec![r1]);
+        });
+        std::thread::sleep(std::time::Duration::from_millis(120));
+        let r2 = OsIpcSharedMemory::from_byte(0x22, len);
+        let got = rx.recv();
+        let _ = t.join();
+        let mut code = 0;
+        match got {
+            Ok((d, _c, regs)) => {
+                if d.len() != 4 << 20 || regs.len() != 1 || regs[0].len() != len || !regs[0].iter().all(|b| *b == 0x11) {
+                    code = 4;
+                }
+            },
+            Err(_) => code = 5,
+        }
+        if !keep1.iter().all(|b| *b == 0x11) {
+            code = 6;
+        }
+        if r2.len() != len || !r2.iter().all(|b| *b == 0x22) {
+            code = 7;
+        }
+        unsafe { libc::_exit(code) };
+    }
+    let mut st = 0;
+    unsafe { libc::waitpid(pid, &mut st, 0) };
+    let (code, sig) = if libc::WIFEXITED(st) { (libc::WEXITSTATUS(st), 0) } else { (-1, libc::WTERMSIG(st)) };
+    println!("{}", json!({"kind":"parked","id":id,"len":len,"code":code,"signal":sig}));
+}
+
 fn case(a: &std::collections::HashMap<String, String>) {
     let id: u64 = a["id"].parse().unwrap();
     let len: usize = a["len"].parse().unwrap();
@@ -328,6 +370,7 @@ pub fn run() {
             },
             Some("mmapfail") => mmapfail(),
             Some("script") => script(&a),
+            Some("parked") => parked(&a),
             Some("case") => {
                 mark(&format!("shm {}", a["id"]));
                 case(&a);
